@@ -185,6 +185,13 @@ func run(cfg lib.Cfg) error {
 		base("rebatch-log-b4c2-to-b2c1", "log", 4, 2, 5, 28, cat(ts.Steps(1, 1), []ts.Act{{Do: "reconfig", K: 2, Len: 1}, {Do: "reorg", Fork: 3, Len: 4}}, ts.Steps(1, 2))),
 	}
 	{
+		// no configured start: the first (and only) recorded position is orphaned by a reorg
+		b := base("fresh-start-tx-b4c1", "tx", 4, 1, 5, 30, cat(ts.Steps(1, 1), []ts.Act{{Do: "reorg", Fork: 5, Len: 4}}, ts.Steps(1, 2)))
+		b.IGs[0].Sources[0].Start = 0
+		b.Gen.EmptyProb = 0
+		bases = append(bases, b)
+	}
+	{
 		// trace indexing through the real jrpc2.Client (second integration => maxreads 2): a step
 		// that fails after its load is retried against the SAME cached block segment
 		b := base("real-trace-b3c1", "trace", 3, 1, 3, 29, ts.Steps(1, 2))
